@@ -240,6 +240,8 @@ class Native:
             old = dict(args)  # same objects; their pre-state fields are in the snapshot
             self.old_overrides = {k: copy.deepcopy(v) for k, v in args.items() if hasattr(type(v), "__deepcopy__") and not hasattr(v, "__dict__")}
             old.update(self.old_overrides)
+        elif fname in getattr(self.side, "NO_OLD_COPY", ()):
+            old = dict(args)        # the arguments cannot be copied (a database handle) and the clauses do not use old()
         else:
             old = copy.deepcopy(args)
         if hasattr(self.side, "native_old"):
